@@ -30,7 +30,7 @@ TRUSTED = ["z3 (QF_UFBV)", "pysym abstract mode: Unknown joins, lenient evaluati
            "loops explored 0..2 iterations (precision state must be loop-invariant beyond that)"]
 ASSUMPTIONS = ["crash points are call boundaries (an exception raised between two bytecodes, e.g. KeyboardInterrupt, is outside)",
                "deliberate setters (prec/dps properties, default, clone, context-manager __enter__) are exempt"]
-BUDGET = {'quick': dict(ob_deadline_s=45, total_s=260), 'thorough': dict(ob_deadline_s=600, total_s=3000)}
+BUDGET = {'quick': dict(ob_deadline_s=45, total_s=260), 'thorough': dict(ob_deadline_s=300, total_s=1800)}
 BOUNDS = {'quick': 'every public callable of mp (not starting with _) whose source is retrievable, and every public callable of iv whose own body writes the precision (thorough: all of iv); inlining depth <= 8 for precision-writing callees; loops <= 2 iterations; entry precision 1..2^20'}
 
 EXEMPT = {'default', 'clone', 'mpf', 'mpc', 'matrix', 'constant', 'mpi', 'mpq', 'context', 'iv', 'fp', 'mp', 'NoConvergence', 'ComplexResult', 'runtests', 'doctests',
